@@ -6,6 +6,11 @@ every behaviour (exhaustive to depth 5, simulated to depth 10) is replayed on a 
 with two documents: after every full/delta reply the array the client rebuilt must equal a
 full request on a fresh server for the current text; a range request for every line interval
 must equal the fresh full result restricted to those lines.
+Content part: TokenEdits.tla models the relative wire encoding over documents that are sequences of
+menu lines and one-line edits (replace / insert / delete); TLC checks that the splice rebuilds the
+encoding of the new document (and that trimming the splice on ABSOLUTE tokens does not); every
+(document of <= 3 lines, edit) pair is replayed: full, didChange, delta with the current id, compare
+with a fresh server's full result.
 Geometry part: journals of G from JournalGen.tla with the lexeme table (kind and exact UTF-16
 span of every lexeme): tokens in document order without overlap, inside their line, never
 splitting a surrogate pair, type inside the legend, each covering exactly one lexeme of the
@@ -57,6 +62,43 @@ def protocol_histories(run):
     return hs
 
 
+def content_histories(run):
+    """TokenEdits.tla: documents of <= 3 lines over a menu of 7 journal lines x every one-line edit (replace / insert / delete),
+    as (texts, ops) for the semtok harness: full, then per edit didChange + delta with the current id."""
+    thorough = run.tier == "thorough"
+
+    def tcfg(maxlines, maxedits, mech, emit):
+        return ("CONSTANTS MaxLines = %d MaxEdits = %d Mech = \"%s\"\nSPECIFICATION Spec\nINVARIANTS Rebuilt%s\nCHECK_DEADLOCK FALSE\n"
+                % (maxlines, maxedits, mech, " Emit" if emit else ""))
+    # vacuity guard: comparing ABSOLUTE tokens to trim the splice must violate Rebuilt; the other two mechanisms satisfy it
+    bad = run.tlc("TokenEdits", tcfg(3, 1, "absolute", False), workers=4, allow_violation=True, collect_json=False)
+    if bad.ok or "Invariant Rebuilt is violated" not in bad.stdout:
+        vf.die_tooling("TokenEdits.tla: trimming the splice on absolute tokens no longer violates Rebuilt — the model is vacuous")
+    run.tlc("TokenEdits", tcfg(3, 1, "relative", False), workers=8, timeout=1800, collect_json=False)
+    out = []
+    r = run.tlc("TokenEdits", tcfg(3, 1, "whole", True), workers=8, timeout=1800)
+    ex = r.json
+    if not thorough and len(ex) > 5000:
+        ex = run.rng.sample(ex, 5000)
+    out += [("content1", c) for c in ex]
+    for ml, me, num in ([(4, 3, 400)] if not thorough else [(4, 2, 20000), (5, 4, 5000)]):
+        r = run.tlc("TokenEdits", tcfg(ml, me, "whole", True), mode="simulate", simulate=num, depth=me + 1, workers=1, timeout=1800)
+        js = r.json
+        if len(js) > num:
+            js = run.rng.sample(js, num)
+        out += [("content%d" % me, c) for c in js]
+    cases = []
+    for fam, c in out:
+        texts = {"1": "\n".join(c["first"]) + "\n"}
+        ops = [{"op": "full", "uri": "u1"}]
+        for i, st in enumerate(c["steps"]):
+            texts[str(i + 2)] = "\n".join(st["lines"]) + "\n"
+            ops.append({"op": "edit", "uri": "u1", "text": i + 2, "what": st["edit"]})
+            ops.append({"op": "delta", "uri": "u1", "prev": "current"})
+        cases.append((fam, {"texts": texts, "ops": ops}))
+    return cases
+
+
 def classify(h, k):
     """signature of a protocol divergence at step k: was the previous id stale and did an empty-document reply precede?"""
     st = h[k]
@@ -88,15 +130,23 @@ def main(args):
         if rp["case"]["family"] == "geometry":
             return replay_geometry(run, rp)
         hs = [(rp["case"]["family"], rp["case"]["history"])]
+        texts_of = [rp["case"].get("texts") or TEXTS]
     else:
         hs = protocol_histories(run)
-    hcases = [{"id": str(i), "texts": TEXTS, "ops": h} for i, (_, h) in enumerate(hs)]
+        texts_of = [TEXTS] * len(hs)
+        for fam, c in content_histories(run):
+            hs.append((fam, c["ops"]))
+            texts_of.append(c["texts"])
+    hcases = [{"id": str(i), "texts": tx, "ops": h} for i, ((_, h), tx) in enumerate(zip(hs, texts_of))]
     results = run.harness("semtok", hcases, timeout=3000)
-    for (fam, h), res in zip(hs, results):
+    for (fam, h), tx, res in zip(hs, texts_of, results):
         nt = any(st["op"] == "delta" for st in h) and any(st["op"] == "edit" for st in h)
-        run.count(vf.digest(h), nt)
+        run.count(vf.digest([h, tx if tx is not TEXTS else 0]), nt)
         for sig, what in evaluate(h, res):
-            run.diverge(sig, what, {"family": fam, "history": h}, res)
+            if tx is not TEXTS:
+                k = int(what.split()[1])
+                what += "  [document before the edit %r, after it %r]" % (tx.get(str(h[k - 1].get("text", 2) - 1)), tx.get(str(h[k - 1].get("text"))))
+            run.diverge(sig, what, {"family": fam, "history": h, "texts": tx}, res)
     ngeo = 0
     if not args.replay or hs[0][0] == "geometry":
         ngeo = geometry(run, args)
@@ -104,9 +154,9 @@ def main(args):
     run.extra["geometry_journals"] = ngeo
     run.sample({"history": hs[-1][1]})
     run.rule = ("one case per behaviour of SemTokens.tla (exhaustive to depth 4 [thorough 5] over edit/open/close/full/range/delta with current, older, "
-                "other-document and unknown result ids on two documents; simulated to depth 10..14); non-trivial = contains an edit and a delta request")
+                "other-document and unknown result ids on two documents; simulated to depth 10..14) plus one case per behaviour of TokenEdits.tla (every document of <= 3 menu lines x every one-line edit; chains of 2..4 edits simulated); non-trivial = contains an edit and a delta request")
     run.assumptions = ["a client holds the array of the last reply and applies delta edits to it as LSP prescribes",
-                       "token arrays are those of four fixed real texts (empty, two of equal token count, one longer)"]
+                       "protocol histories: token arrays are those of four fixed real texts (empty, two of equal token count, one longer); content histories: documents of <= 3..5 lines over a menu of 7 journal lines"]
     run.finish(confirm=lambda d: confirm(run, d))
 
 
@@ -140,7 +190,7 @@ def confirm(run, d):
             return True
         return any(sig == d["sig"] for sig, _ in geometry_one(run, d["case"]["spec_case"]))
     h = d["case"]["history"]
-    res = run.harness("semtok", [{"id": "0", "texts": TEXTS, "ops": h}])[0]
+    res = run.harness("semtok", [{"id": "0", "texts": d["case"].get("texts") or TEXTS, "ops": h}])[0]
     return any(sig == d["sig"] for sig, _ in evaluate(h, res))
 
 
